@@ -296,6 +296,14 @@ Theorem C10_wiring_enums : forall db p,
 Proof. exact enums_correct. Qed.
 Print Assumptions C10_wiring_enums.
 
+(** ... and that specification IS C11's model of the enum String() (Gen/Api.v [enum_string] of the signal's API record, the
+    function the C11 theorems and its reflective correspondence run are about); moreover [wiring_ok_c10] demands that the
+    struct field of such a signal is declared with the enum type NAME <Msg>_<Sig> ([enum_fields_ok]) *)
+Theorem C10_wiring_enums_is_api_model : forall hp m s v,
+  has_custom_type s = true -> enum_string_spec m s v = Api.enum_string (signal_api_with hp m s) v.
+Proof. exact enum_string_spec_is_api. Qed.
+Print Assumptions C10_wiring_enums_is_api_model.
+
 (** non-vacuity: Reset, the five setters and getters of the example message as harness/genwire prints them; a setter that
     converts before saturating (cin = int16 instead of int64) is refused *)
 Definition w_unmarshal_rejects : list nustmt := [NReject (RcNe HId HId); NReject (RcNe HLen HLen); NReject RcRemote; NReject (RcNe HExt HExt)].
@@ -327,11 +335,11 @@ Example C10_wiring_nonvacuous :
                    w_frame := []; w_unmarshal := w_unmarshal_rejects; w_reset := []; w_copy := true; w_setters := []; w_getters := [] |} in
   let db := {| db_source_file := []; db_version := []; db_messages := [e 1; e 2; e 3; C03_example_message];
                db_nodes := [{| node_name := [78]; node_description := [] |}] |} in
-  let p := {| p_enums := []; p_wirings := [we 1 0; we 2 1; we 3 2; C10_example_wiring [105; 110; 116; 54; 52]]; p_nodes := [([78], 0)];
+  let p := {| p_nodegens := []; p_enums := []; p_wirings := [we 1 0; we 2 1; we 3 2; C10_example_wiring [105; 110; 116; 54; 52]]; p_nodes := [([78], 0)];
               p_dispatch := [Some [1]; Some [2]; Some [3]; Some [77]; None] |} in
   package_wiring_ok db p = true /\ dispatch_ok db p = true /\
   wiring_dispatch db p (frame_of C03_example_message [1; 1; -5; 0; 0x40490FDB]) =
     Some (Some (C03_example_message, inr [1; 1; -5; 0; 0x40490FDB])) /\
   (* the same wirings in a package whose md entry of message 3 points at index 2 are refused *)
-  package_wiring_ok db {| p_enums := []; p_wirings := [we 1 0; we 2 1; we 3 2; we 77 2]; p_nodes := [([78], 0)]; p_dispatch := [] |} = false.
+  package_wiring_ok db {| p_nodegens := []; p_enums := []; p_wirings := [we 1 0; we 2 1; we 3 2; we 77 2]; p_nodes := [([78], 0)]; p_dispatch := [] |} = false.
 Proof. vm_compute. repeat split; reflexivity. Qed.
